@@ -57,7 +57,9 @@ def header_counters(path):
 def run_history(v, h, toks, hid, rnd, page_size, nrows, tier):
     d = common.sub("c08-h%d" % hid)
     live = os.path.join(d, "live.db")
-    gen.tree_db(live, page_size, rnd=random.Random(rnd.randrange(1 << 30)), n=nrows, extreme=False)
+    # big histories: a table of more than 100 pages is read in every bracket AFTER the others, so that the 100-page cache
+    # fills up and is dropped wholesale while pages of r / w / alt are in it
+    gen.tree_db(live, page_size, rnd=random.Random(rnd.randrange(1 << 30)), n=nrows, extreme=False, deep_rows=450 if page_size == 512 else 0)
     snaps = [os.path.join(d, "v0.db")]
     shutil.copy(live, snaps[0])
     # plan: harness steps; commits are executed by tools/writer.py in another process
@@ -125,7 +127,8 @@ def run_history(v, h, toks, hid, rnd, page_size, nrows, tier):
         _, vi, extras, nstep, after = st
         x = vers[vi]
         group += 1
-        tnames = ["r", "w", "alt"] + [t for t in extras if t in x["desc"]["tables"]][-1:]
+        tnames = ["r", "w", "alt"] + [t for t in extras if t in x["desc"]["tables"]][-1:] + (["deep"] if "deep" in x["desc"]["tables"] else []) + \
+            (["ovn", "ovw", "ovn", "ovw"] if "ovn" in x["desc"]["tables"] else [])     # read twice: the second time from the cache
         xi_all = [i for i in x["desc"]["tables"]["r"]["indexes"] if i.startswith("x")]
         # the first operation after a commit depends on what that commit changed (a stale schema must show at once)
         lead = []
@@ -182,7 +185,7 @@ def run_history(v, h, toks, hid, rnd, page_size, nrows, tier):
     common.write_ndjson(req, [{"db": live, "mode": "keep", "ops": batch}])
     rc, txt, _ = common.run([h, "ops", req, out], timeout=1800)
     if rc != 0:
-        raise Infra("harness ops failed: " + txt[-2000:])
+        raise common.harness_failure(txt)
     res = {r["id"]: r for r in common.read_ndjson(out)}
     for b in batch:
         if b["op"] in ("exec", "rlock", "runlock") and res[b["id"]].get("err"):
@@ -287,7 +290,7 @@ def run(tier):
                     "commit:=dml_update", "read", "commit:=grow", "read", "commit:=ddl_drop", "read", "commit:=vacuum", "read",
                     "commit:=drop_index", "read", "commit:=reuse", "read", "commit:=vacuum_pagesize", "read", "commit:=dml_insert",
                     "read", "commit:=dml_delete", "read", "commit:=noop", "read"]
-        big = (i % 2 == 1)
+        big = (i % 2 == 0)      # the fixed history (every commit kind, reads in between) runs on the file larger than the cache
         kinds, drift, p0, p1 = run_history(v, h, toks, i, rnd, 512 if big else 1024, 150 if big else 50, tier)
         hsum.append({"tokens": toks[:12], "commit_kinds": kinds, "pages_at_open": p0, "pages_at_end": p1, "drift": drift})
     v.cov["histories"] = hsum
